@@ -58,3 +58,8 @@ register("C02", ["c02", "c04"],
          "Static decision tables and ingredient terms of the re-proposal rule: get_implied_block is enumerated over (justification kind, high vote, high QC, number order) and each outcome site is classified by its return terms; TimeoutQC::high_vote is checked for what it tallies (key = the voted BlockHeader, quantity = Signers::weight, only entries with a vote), the qualifying comparison (>= subquorum_threshold) and uniqueness (exactly one); high_qc is compared with max-by-view over the entries' high QCs; the replica's payload table (vote only for the implied hash, or for a fresh payload after verify_payload succeeded) and the proposer's table are enumerated; certificate verification obligations are imported from C04. The combinatorial safety argument (2f < n-3f) rests on C07 and the hand lemma; multi-view histories are not explored.",
          ["the C07 lemma", "certificates inside accepted messages were verified (C04 rules run with this property)"],
          TRUSTED)
+
+register("C17", ["c17"],
+         "Static dominance, guard tables and who-may-call facts over the scope runtime (generic MIR): run/run_blocking read the recorded failure and return only after the joined root task and the completed wait for the `terminated` signal, with the cancel guard dropped first; each spawn method wraps user code in Task::run/run_blocking of a guard-holding task; the PanicReporter is armed before and defused after the user code, Err results and un-defused drops are reported through set_err; set_err's 6-row table (a panic is never overwritten, an error only by a panic, cancel iff stored) and the result mapping table are enumerated; the unsafe lifetime-erasing spawns have exact caller sets and are private. Schedule-dependent clauses (which failure is first, cancellation latency) and the tokio runtime are not decided.",
+         ["tokio joins/aborts tasks as documented; Arc/Weak drop semantics", "scope::run! is the only caller of Scope::run (macro hygiene)"],
+         TRUSTED)
